@@ -1,6 +1,6 @@
 //@ unit mixer
 //@ props C19 C16
-//@ assume sample_count_for_frame_fraction (one f64 expression) is external here with contract r <= samples_per_frame, monotone; proved by Kani harness K-core::audio::sample_count
+//@ assume sample_count_for_frame_fraction (one f64 expression) is external here with contract r <= samples_per_frame, monotone; proved by Kani harnesses K-core::audio-float sample_index_range (every rate) and sample_index_floor (common rates)
 //@ assume gen_sample (float mixing of beeper and AY) is external: returns some sample, touches only the devices and last_sample
 use vstd::prelude::*;
 use std::collections::VecDeque;
